@@ -31,7 +31,7 @@ func init() {
 	Register(&Prop{
 		ID:    "C09",
 		Title: "Path selectors evaluate per the documented grammar and fail only with errors",
-		Rule: "generator A (2/3 of cases): rapid draws a JSON-like document (objects/arrays to depth 4, ragged arrays, arrays of arrays, keys that " +
+		Rule: "generator A (2/3 of cases): rapid draws a JSON-like document (objects/arrays to depth 4, ragged arrays, arrays of arrays also holding NULL / scalar / object rows, records of numeric texts in every spelling for the {k|number} pipe, keys that " +
 			"need quoting) and derives a selector step by step from the value reached so far (key existing/missing, [i], [i:j:k], each, keep=>, " +
 			"(m:n) with begin/end, pipes with |string |number, quoted keys, :: continuation, mix=> distinct=> and harness-registered fn=>), with " +
 			"~15% deliberately invalid steps (index == len or beyond, range end > len or begin > end, index/each/key/pipe on a value of the wrong " +
